@@ -137,6 +137,8 @@ def run_batch(exe, n, tier, seed, env=None, start=0, crash_prop='C12', workers=N
     workers = workers or WORKERS
     env = dict(env or {})
     env['VERIF_SEED'] = str(seed)
+    os.makedirs(SCRATCH, exist_ok=True)
+    env.setdefault('ASIM_SCRATCH', SCRATCH)
     b = Batch()
     b.exe, b.tier, b.env, b.label = exe, tier, env, label
     chunk = chunk or max(1, min(2000, n // (workers * 6) or 1))
